@@ -44,6 +44,11 @@ CHECKS["C01"] = dict(cat="model_checking", design="DESIGN.md section 4, C01",
     note=EP_NOTE + " Termination: TLC checks the liveness property Terminates (<>[]Quiet) of MC_Pair under weak fairness; on the implementation every replayed schedule / random workload is run to quiescence within a step budget.", tech="TLA+ two-endpoint composition + TLC model checking (safety action property + liveness under fairness); transition-cover replay on two real objects exchanging real bytes, each run on to quiescence; TLC trace validation")
 for pid in ("C05", "C06", "C07", "C08", "C10", "C11", "C12", "C13", "C14", "C15", "C16", "C17", "C19"):
     CHECKS[pid] = dict(cat="model_checking", design="DESIGN.md section 4, %s" % pid, text=EP_TEXT, note=EP_NOTE, tech=EP_TECH)
+CHECKS["C11"]["text"] += " For C11 every history also runs on a twin object whose packets go through checked_send with their concrete types (selected at compile time where T: Sendable<Role> holds), compared step by step with the object driven through send(); the compile-time acceptance table itself is read off by a trait probe and judged by TLC against the role table."
+CHECKS["C11"]["tech"] += "; bisimulation of send() and checked_send() on a twin object; compile-time trait probe"
+CHECKS["C10"]["tech"] += "; bisimulation of a reused object against a fresh one"
+CHECKS["C16"]["tech"] += "; bisimulation of the original against an object restored from its export"
+CHECKS["C17"]["tech"] += "; bisimulation of an undetermined-version server against a fixed-version one"
 
 ENGINE_PROPS = sorted(CHECKS)
 
